@@ -3,15 +3,20 @@ C06 — property theorems (sparse matrices and linear operators).
 Helper lemmas live in OFV/Proofs/C06*.lean.  Every theorem is audited with `#print axioms`.
 The Model functions named here are the ones `ofv-driver` executes in the correspondence run.
 
-Not proved (see OPEN_STATEMENTS in harness/c06.py): the end-to-end statements
-  `qubit_sparse_sound`: entries of `qubitOperatorSparse n A` = `Spec.C06.specMatrix .qubit n A`,
-  `jw_sparse_sound`, `matvec_sound`, `diagonal_sound`;
-they are covered by the exact correspondence run and the Spec oracle.
+Proved end-to-end for one term: `qubit_term_matrix_sound` (the Kronecker chain of a Pauli string is
+its matrix in the big-endian basis, all register sizes).  Not proved (see OPEN_STATEMENTS in
+harness/c06.py): the coordinate assembly over several terms (`qubitTermTriplets` with the swapped
+`nonzero()` order) and the product of ladder matrices over a fermionic term (`jw_sparse_sound`;
+each ladder matrix is proved: `jw_ladder_sound`); they are covered by the exact correspondence run
+and the Spec oracle.
 -/
 import OFV.Model.C06
 import OFV.Spec.C06
 import OFV.Proofs.C06Basic
 import OFV.Proofs.C06Kron
+import OFV.Proofs.C06Term
+import OFV.Proofs.C06Matvec
+import OFV.Proofs.C06Ladder
 
 namespace OFV.C06
 open OFV OFV.Spec OFV.Spec.C06 OFV.Model OFV.Model.C06 OFV.Proofs.C06
@@ -69,6 +74,116 @@ theorem qubit_term_shape (n : Nat) (t : List (Nat × Nat)) (c : GQ)
   qubitTermFactors_shape n t c hp hn
 
 example : (kronList (qubitTermFactors 4 [(1, 2), (2, 3)] 1)).rows = 16 := by decide
+
+/-- `qubit_sparse_sound`, term level: for a Pauli string `t` (strictly increasing qubits `< n`,
+actions X/Y/Z), any coefficient `c` and any register size `n`, the matrix
+`kronecker_operators([c, I…, P_1, I…, P_2, …, I…])` built by `qubit_operator_sparse` has at
+(row `beIndex n u`, column `beIndex n s`) the value `c · ⟨u| t |s⟩` of the Spec action, for all
+basis states `s, u < 2^n` — i.e. it is the matrix of `c·t` in the big-endian computational basis. -/
+theorem qubit_term_matrix_sound (n : Nat) (t : List (Nat × Nat)) (c : GQ)
+    (hp : t.Pairwise (fun f g => f.1 < g.1)) (hv : ∀ f ∈ t, 1 ≤ f.2 ∧ f.2 ≤ 3) (hn : ∀ f ∈ t, f.1 < n)
+    (s u : Nat) (hs : s < 2 ^ n) (hu : u < 2 ^ n) :
+    (kronList (qubitTermFactors n t c)).get (beIndex n u) (beIndex n s) = c * Spec.C07.ampP t s u :=
+  qubitTermFactors_get n t c hp hv hn s u hs hu
+
+example : (kronList (qubitTermFactors 3 [(0, 2), (2, 3)] ⟨2, 0⟩)).get (beIndex 3 0b101) (beIndex 3 0b100) = ⟨0, -2⟩ ∧
+    Spec.C07.ampP [(0, 2), (2, 3)] 0b100 0b101 = ⟨0, -1⟩ := by
+  refine ⟨by decide +kernel, by decide +kernel⟩
+
+/-! ### `jordan_wigner_ladder_sparse` -/
+
+/-- `jw_ladder_sound`: for every register size `n > j` the matrix
+`kron(Z, …, Z, q_raise | q_lower, identity(2^(n-j-1)))` has at (row `beIndex n u`, column
+`beIndex n s`) the Spec matrix element `⟨u| a_j^(†) |s⟩` — `(-1)^{#occupied modes below j}` if the
+ladder operator maps `|s⟩` to `|u⟩`, else 0 — for all basis states `s, u < 2^n`. -/
+theorem jw_ladder_sound (n j ty : Nat) (hj : j < n) (ht : ty ≤ 1) (s u : Nat) (hs : s < 2 ^ n) (hu : u < 2 ^ n) :
+    (jwLadder n j ty).get (beIndex n u) (beIndex n s) =
+      (match actF j ty s with
+       | none => 0
+       | some (k, s') => if s' = u then GQ.sgn k else 0) :=
+  jwLadder_get n j ty hj ht s u hs hu
+
+example : (jwLadder 3 1 1).get (beIndex 3 0b011) (beIndex 3 0b001) = -1 ∧ actF 1 1 0b001 = some (1, 0b011) := by
+  refine ⟨by decide +kernel, by decide⟩
+
+/-! ### coordinate assembly -/
+
+/-- `coo_assembly_sound`: the final `coo_matrix((values, (rows, cols))).tocsc()` +
+`eliminate_zeros()` step (`canonEntries`: sort, sum duplicates, drop zeros) keeps every dense entry
+of the collected triplets — the assembled matrix is the sum of the term matrices — and stores no
+explicit zero. -/
+theorem coo_assembly_sound (es : List (Nat × Nat × GQ)) (r c : Nat) :
+    getL (canonEntries es) r c = getL es r c ∧ ∀ e ∈ canonEntries es, e.2.2 ≠ 0 :=
+  canonEntries_get es r c
+
+example : canonEntries [(1, 0, ⟨1, 0⟩), (0, 1, ⟨2, 0⟩), (1, 0, ⟨-1, 0⟩)] = [(0, 1, ⟨2, 0⟩)] := by decide +kernel
+
+/-! ### `LinearQubitOperator._matvec` -/
+
+/-- `matvec_sound`, term level: for a Pauli string `t` on qubits `< n` and *every* vector `x` of
+length `2^n`, the recursive halving (`numpy.split` / `xyz` / `numpy.concatenate`) returns a vector of
+length `2^n` that is the image of `x` under the Spec action in the big-endian basis: for every
+basis state `s` with `t|s⟩ = i^k |s'⟩`, `result[beIndex n s'] = i^k · x[beIndex n s]`. -/
+theorem matvec_term_sound (n : Nat) (t : List (Nat × Nat)) (x : List GQ)
+    (hp : t.Pairwise (fun f g => f.1 < g.1)) (hv : ∀ f ∈ t, f.1 < n ∧ 1 ≤ f.2 ∧ f.2 ≤ 3)
+    (hx : x.length = 2 ^ n) :
+    (matvecTerm t x).length = 2 ^ n ∧
+    ∀ s, (matvecTerm t x).getD (beIndex n (actPTerm t s).2) 0 =
+      GQ.ipow (actPTerm t s).1 * x.getD (beIndex n s) 0 :=
+  matvecTerm_sound n t x hp hv hx
+
+example : matvecTerm [(0, 2), (1, 3)] [⟨1, 0⟩, ⟨2, 0⟩, ⟨3, 0⟩, ⟨4, 0⟩] = [⟨0, -3⟩, ⟨0, 4⟩, ⟨0, 1⟩, ⟨0, -2⟩] := by
+  decide +kernel
+
+/-- `matvec_sound`, linearity: `LinearQubitOperator._matvec` is the coefficient-weighted sum of the
+term results, entry by entry (`retvec += coefficient * numpy.concatenate(vecs)`), and has length `2^n`. -/
+theorem matvec_linear (n : Nat) (a : List (List (Nat × Nat) × GQ)) (x : List GQ) (hx : x.length = 2 ^ n)
+    (ha : ∀ e ∈ a, e.1.Pairwise (fun f g => f.1 < g.1) ∧ ∀ f ∈ e.1, f.1 < n ∧ 1 ≤ f.2 ∧ f.2 ≤ 3) (i : Nat) :
+    (matvec a x).length = 2 ^ n ∧
+    (matvec a x).getD i 0 = a.foldl (fun acc e => acc + e.2 * (matvecTerm e.1 x).getD i 0) 0 := by
+  have h := matvec_fold n x hx a ha (x.map fun _ => 0) (by simp [hx]) i
+  have hz : (x.map fun _ => (0 : GQ)).getD i 0 = 0 := by
+    simp only [List.getD_eq_getElem?_getD, List.getElem?_map]
+    cases x[i]? <;> rfl
+  rw [hz] at h
+  exact h
+
+/-! ### `get_linear_qubit_operator_diagonal` -/
+
+/-- `diagonal_sound`, term level: a term containing `X` or `Y` contributes nothing; for a term of
+`Z`s on qubits `< n` the contributed vector has length `2^n` and its entry at `beIndex n s` is the
+diagonal matrix element `⟨s| t |s⟩ = i^k` (`t|s⟩ = i^k |s⟩`), for every basis state `s`. -/
+theorem diagonal_term_sound (n : Nat) (t : List (Nat × Nat))
+    (hp : t.Pairwise (fun f g => f.1 < g.1)) (hn : ∀ f ∈ t, f.1 < n) :
+    ((∃ f ∈ t, f.2 = 1 ∨ f.2 = 2) → diagTerm n t = none) ∧
+    ((∀ f ∈ t, f.2 = 3) → ∃ v, diagTerm n t = some v ∧ v.length = 2 ^ n ∧
+      ∀ s, s < 2 ^ n → (actPTerm t s).2 = s ∧ v.getD (beIndex n s) 0 = GQ.ipow (actPTerm t s).1) := by
+  refine ⟨diagTerm_of_xy n t, fun hz => ?_⟩
+  have hv : ∀ f ∈ t, f.1 < n ∧ 1 ≤ f.2 ∧ f.2 ≤ 3 := fun f hf => ⟨hn f hf, by rw [hz f hf]; omega, by rw [hz f hf]; omega⟩
+  obtain ⟨hl, hs⟩ := matvecTerm_sound n t (List.replicate (2 ^ n) 1) hp hv (by simp)
+  refine ⟨_, diagTerm_of_allZ n t hz, hl, fun s hs' => ?_⟩
+  have hdiag := actPTerm_allZ t hz s
+  refine ⟨hdiag, ?_⟩
+  have := hs s
+  rw [hdiag] at this
+  rw [this]
+  have : (List.replicate (2 ^ n) (1 : GQ)).getD (beIndex n s) 0 = 1 := by
+    simp [List.getD_eq_getElem?_getD, List.getElem?_replicate, beIndex_lt n s]
+  rw [this, gq_mul_one]
+
+example : diagTerm 2 [(1, 3)] = some [1, -1, 1, -1] ∧ diagTerm 2 [(0, 1), (1, 3)] = none := by
+  refine ⟨by decide +kernel, by decide +kernel⟩
+
+/-! ### `ParallelLinearQubitOperator`: the groups together are the whole operator -/
+
+/-- For every process count `k`, every entry of the parallel result (group results delivered in
+the natural order; any other order gives the same vector by `parallel_any_order`) equals the entry of
+the undivided `LinearQubitOperator._matvec`. -/
+theorem parallel_matvec_sound (n k : Nat) (a : List (List (Nat × Nat) × GQ)) (x : List GQ)
+    (hx : x.length = 2 ^ n)
+    (ha : ∀ e ∈ a, e.1.Pairwise (fun f g => f.1 < g.1) ∧ ∀ f ∈ e.1, f.1 < n ∧ 1 ≤ f.2 ∧ f.2 ≤ 3) (i : Nat) :
+    (parallelMatvec k a x (List.range (operatorGroups k a).length)).getD i 0 = (matvec a x).getD i 0 :=
+  parallel_eq_matvec n k a x hx ha i
 
 /-! ### the big-endian index convention -/
 
